@@ -594,3 +594,168 @@ func checkElementIndexFromOwnLoop(c *Ctx, rule string, fnNames []string) {
 	}
 	c.Floor(rule, "per-element index arguments taken from a loop variable", n, 3)
 }
+
+// checkCallbackPointersNotRetained: an iterator helper that hands its callback a POINTER to a variable it
+// re-uses across iterations (declared outside the per-record closure) obliges every callback not to retain
+// that pointer. A callback that collects such pointers ends up with N references to the last record: the
+// lease sweep then releases the last lease in key order once per expired lease — a live lease is dropped and
+// the expired ones stay.
+func checkCallbackPointersNotRetained(c *Ctx, rule string) {
+	p := c.P
+	n := 0
+	for _, fn := range p.FuncsIn("wtxmgr") {
+		if fn.Parent() != nil {
+			continue
+		}
+		for pi, prm := range fn.Params {
+			if _, ok := prm.Type().Underlying().(*types.Signature); !ok {
+				continue
+			}
+			// invocations of the callback parameter anywhere in fn and its closures
+			for _, f := range Closures(fn) {
+				for _, ci := range callsOf(f) {
+					cc := ci.Common()
+					if cc.IsInvoke() || cc.StaticCallee() != nil {
+						continue
+					}
+					v := cc.Value
+					isP := v == ssa.Value(prm)
+					if fv, ok := v.(*ssa.FreeVar); ok && freeVarRoot(fv) == ssa.Value(prm) {
+						isP = true
+					}
+					if u, ok := v.(*ssa.UnOp); ok && u.Op == token.MUL {
+						// the parameter captured by reference: *f where f's cell was initialised with the parameter
+						var cell ssa.Value = u.X
+						if fv, ok := cell.(*ssa.FreeVar); ok {
+							cell = freeVarRoot(fv)
+						}
+						if al, ok := cell.(*ssa.Alloc); ok {
+							for _, st := range storesTo(al) {
+								if st.Val == ssa.Value(prm) {
+									isP = true
+								}
+							}
+						}
+					}
+					if !isP {
+						continue
+					}
+					n++
+					for ai, a := range cc.Args {
+						if _, isPtr := a.Type().Underlying().(*types.Pointer); !isPtr {
+							continue
+						}
+						fresh := false
+						if al, ok := a.(*ssa.Alloc); ok && al.Parent() == f {
+							fresh = true // allocated by the function that runs once per record
+						}
+						if fresh {
+							continue
+						}
+						// reused storage: no callback may retain parameter ai
+						for _, cs := range p.callers(fn) {
+							if pi >= len(cs.Common().Args) {
+								continue
+							}
+							mc, ok := stripConv(cs.Common().Args[pi]).(*ssa.MakeClosure)
+							if !ok {
+								continue
+							}
+							cb := mc.Fn.(*ssa.Function)
+							if ai >= len(cb.Params) {
+								continue
+							}
+							cp := cb.Params[ai]
+							retained := false
+							for _, u := range usesOf(cp) {
+								switch x := u.(type) {
+								case *ssa.Store:
+									if x.Val == ssa.Value(cp) {
+										retained = true
+									}
+								case *ssa.Call:
+									if calleeShort(&x.Call) == "append" {
+										retained = true
+									}
+								case *ssa.MakeInterface, *ssa.MakeClosure:
+									retained = true
+								}
+							}
+							c.Check(rule, fmt.Sprintf("callback-does-not-retain-reused-pointer:%s<-%s", fn.Name(), outermost(cs.Parent()).Name()), cb.Pos(), !retained,
+								fmt.Sprintf("%s hands its callback a pointer to a variable it re-uses for every record, and the callback in %s keeps that pointer (appends/stores it): all kept pointers end up denoting the last record, so the wrong records are acted on (e.g. the expiry sweep releases a live lease and keeps the expired ones)", fn.Name(), fnName(cs.Parent())))
+						}
+					}
+				}
+			}
+		}
+	}
+	c.Floor(rule, "callback invocations in wtxmgr iterator helpers", n, 1)
+}
+
+// checkNoAccumulatorReset: a filter loop that builds its result with `acc = append(acc, x...)` must append to
+// the accumulator itself. `acc = append(acc[:0], x...)` (a mis-applied buffer-reuse idiom) truncates it on every
+// iteration, so only the last kept element survives: the unconfirmed-spender list of an outpoint loses all other
+// spenders when one of three or more is removed, and a coin a recorded transaction still spends shows as spendable.
+func checkNoAccumulatorReset(c *Ctx, rule string, pkg string) {
+	p := c.P
+	n := 0
+	for _, fn := range p.FuncsIn(pkg) {
+		loops := loopsOf(fn)
+		if len(loops) == 0 {
+			continue
+		}
+		for _, ci := range callsOf(fn) {
+			call, ok := ci.(*ssa.Call)
+			if !ok || calleeShort(&call.Call) != "append" || len(call.Call.Args) == 0 {
+				continue
+			}
+			l := innermostLoopOf(loops, call)
+			if l == nil {
+				continue
+			}
+			// the result is carried around the loop: it is an incoming value of a phi at a loop header
+			var acc *ssa.Phi
+			for _, u := range usesOf(call) {
+				if ph, ok := u.(*ssa.Phi); ok {
+					for _, l2 := range loops {
+						if l2.Header == ph.Block() && l2.Blocks[call.Block()] {
+							acc = ph
+						}
+					}
+				}
+			}
+			// ... possibly through the merge phi after an `if`
+			if acc == nil {
+				for _, u := range usesOf(call) {
+					if ph, ok := u.(*ssa.Phi); ok {
+						for _, u2 := range usesOf(ph) {
+							if ph2, ok := u2.(*ssa.Phi); ok {
+								for _, l2 := range loops {
+									if l2.Header == ph2.Block() && l2.Blocks[call.Block()] {
+										acc = ph2
+									}
+								}
+							}
+						}
+					}
+				}
+			}
+			if acc == nil {
+				continue
+			}
+			n++
+			first := stripConv(call.Call.Args[0])
+			reset := false
+			if sl, ok := first.(*ssa.Slice); ok {
+				if hi, ok := sl.High.(*ssa.Const); ok {
+					if k, ok := constInt(hi); ok && k == 0 && stripConv(sl.X) == ssa.Value(acc) {
+						reset = true
+					}
+				}
+			}
+			c.Check(rule, "accumulating-append-keeps-accumulator:"+fnName(fn), call.Pos(), !reset,
+				fnName(fn)+" rebuilds its loop-carried result with append(acc[:0], ...): the accumulator is truncated on every iteration and only the last kept element survives")
+		}
+	}
+	c.Floor(rule, "loop-carried append accumulators in "+pkg, n, 3)
+}
